@@ -158,6 +158,29 @@ Definition c11_run (fam : string) (args : list val) : option string :=
         end
     | _ => None
     end
+  else if String.eqb fam "c11.bigbuilder" then
+    (* large capacities, compact rendering: N, number of pushes k (values 1..k, taken mod 256 by the
+       harness's u8 elements): pushes that panicked, len, is_full, and what build() does *)
+    match args with
+    | [n; k] =>
+        let N := nat_of n in
+        let '(b, panicked) :=
+          fold_left (fun (st : builder * nat) (x : Z) =>
+                       let '(b', p) := b_push (fst st) x in (b', (snd st + (if p then 1 else 0))%nat))
+                    (zseq 1 (nat_of k)) (b_new N, O) in
+        if (0 <? panicked)%nat then Some ("pushpanics=" ++ show_nat panicked ++ ";len=?;full=?;build=?") else
+        Some (show_fields
+                [("pushpanics", show_nat panicked);
+                 ("len", show_nat (b_len b));
+                 ("full", show_bool (b_is_full b));
+                 ("build", match b_build b with
+                           | None => "UB"
+                           | Some None => "PANIC"
+                           | Some (Some l) => "B" ++ show_nat (length l) ++ ":" ++
+                                              show_Z (fold_left (fun a x => (a + x mod 256) mod 1000003)%Z l 0%Z)
+                           end)])
+    | _ => None
+    end
   else if String.eqb fam "c11.collect" then
     match args with
     | [src; stages] =>
